@@ -35,6 +35,10 @@ pub trait Gx: Sized + Compressable {
     fn case_reset();
     fn probe_arm();
     fn probe_take() -> Option<FinalMsm>;
+    /// take the probe log and return the batch factor of each proof, identified by its B point (free module only)
+    fn probe_take_weights(_bs: &[Self]) -> Option<Vec<Scalar>> {
+        None
+    }
     /// (max bits*aggregation, max bits*capacity) affordable per case
     fn bounds(tier: &Tier) -> (usize, usize);
 }
@@ -82,6 +86,21 @@ impl Gx for FmPoint {
             table_len: c.table_len,
             calls,
         })
+    }
+
+    fn probe_take_weights(bs: &[Self]) -> Option<Vec<Scalar>> {
+        let log = fm::take();
+        let call = log.msm.last()?;
+        bs.iter()
+            .map(|b| {
+                let pairs: Vec<_> = call.dynamic.iter().filter(|(_, p)| p == b).collect();
+                if pairs.len() == 1 {
+                    Some(-pairs[0].0)
+                } else {
+                    None
+                }
+            })
+            .collect()
     }
 
     fn bounds(tier: &Tier) -> (usize, usize) {
